@@ -910,6 +910,50 @@ impl Regex {
     }
 }
 
+#[cfg(feature = "verif")]
+impl RegexNodeId {
+    pub fn verif_index(&self) -> usize {
+        self.0
+    }
+}
+
+#[cfg(feature = "verif")]
+impl RegexId {
+    pub fn verif_index(&self) -> usize {
+        self.0
+    }
+}
+
+#[cfg(feature = "verif")]
+impl RegexInternPool {
+    pub fn verif_len(&self) -> usize {
+        self.store.len()
+    }
+
+    pub fn verif_lookup(&self, index: usize) -> &Regex {
+        self.store.get_index(index).unwrap()
+    }
+}
+
+#[cfg(feature = "verif")]
+impl Regex {
+    pub fn verif_followpos(&self) -> Vec<(Position, Vec<Position>)> {
+        self.followpos()
+            .iter()
+            .map(|(from, tos)| (*from, tos.iter().collect()))
+            .collect()
+    }
+
+    pub fn verif_nullable_first_last(&self, node: usize) -> (bool, Vec<Position>, Vec<Position>) {
+        let n = &self.arena[node];
+        (
+            n.nullable(&self.arena),
+            n.firstpos(&self.arena).iter().collect(),
+            n.lastpos(&self.arena).iter().collect(),
+        )
+    }
+}
+
 #[cfg(test)]
 mod tests {
     use super::*;
